@@ -95,9 +95,17 @@ type op struct {
 	CreateIfAbsent bool  `json:"create_if_absent,omitempty"` // resource.WithCreateIfAbsent()
 	ExpectAbsent   bool  `json:"expect_absent,omitempty"`    // resource.WithExpectAbsent()
 	Expected       *mode `json:"expected,omitempty"`         // resource.WithExpectedValue(mode)
+	// the caller's own code and the reset mask among the options of UpdateMode (options.go)
+	Reset    []string `json:"reset,omitempty"`     // resource.WithResetPaths
+	HasReset bool     `json:"has_reset,omitempty"` //
+	Check    string   `json:"check,omitempty"`     // resource.WithExpectedCheck(namedCheck)
+	Before   string   `json:"before,omitempty"`    // resource.InterceptBefore(namedIcpt)
+	After    string   `json:"after,omitempty"`     // resource.InterceptAfter(namedIcpt)
 }
 
-func (o op) hasWriteOpts() bool { return o.CreateIfAbsent || o.ExpectAbsent || o.Expected != nil }
+func (o op) hasWriteOpts() bool {
+	return o.CreateIfAbsent || o.ExpectAbsent || o.Expected != nil || o.hasCallerCode()
+}
 
 func (o op) expectedToken() string {
 	if o.Expected == nil {
@@ -137,6 +145,14 @@ func (o op) line() string {
 	case "add", "setactive":
 		return o.Kind + " " + m
 	case "update", "s.update":
+		if o.Kind == "update" && o.hasCallerCode() {
+			reset := "nil"
+			if o.HasReset {
+				reset = "p:" + strings.Join(o.Reset, ",")
+			}
+			return o.Kind + " " + m + " " + mask + " w" + b01(o.CreateIfAbsent) + b01(o.ExpectAbsent) + " " + o.expectedToken() +
+				" " + reset + " " + dash(o.Check) + " " + dash(o.Before) + " " + dash(o.After)
+		}
 		if o.Kind == "update" && o.hasWriteOpts() {
 			return o.Kind + " " + m + " " + mask + " w" + b01(o.CreateIfAbsent) + b01(o.ExpectAbsent) + " " + o.expectedToken()
 		}
@@ -332,7 +348,7 @@ func (o op) writeOpts() []resource.WriteOption {
 	if o.Expected != nil {
 		opts = append(opts, resource.WithExpectedValue(o.Expected.proto()))
 	}
-	return opts
+	return append(opts, o.callerOpts()...)
 }
 
 func (o op) fieldMask() *fieldmaskpb.FieldMask {
@@ -426,12 +442,20 @@ type snap struct {
 	Modes  []*traits.ElectricMode
 	Active *traits.ElectricMode
 	Normal *traits.ElectricMode
+	// Orphans: the ids of listed modes that a lookup of that id does not find (the record does not carry the
+	// key it is stored under)
+	Orphans []string
 }
 
 func (w *world) snapshot() snap {
 	s := snap{Modes: w.model.Modes(), Active: w.model.ActiveMode()}
 	if n, ok := w.model.NormalMode(); ok {
 		s.Normal = n
+	}
+	for _, m := range s.Modes {
+		if f, ok := w.model.FindMode(m.Id); !ok || f.Id != m.Id {
+			s.Orphans = append(s.Orphans, m.Id)
+		}
 	}
 	return s
 }
@@ -460,7 +484,7 @@ func (w *world) stateString(s snap) string {
 	for i, m := range s.Modes {
 		ms[i] = showMode(m)
 	}
-	if !sort.SliceIsSorted(s.Modes, func(i, j int) bool { return s.Modes[i].Id < s.Modes[j].Id }) {
+	if len(s.Orphans) == 0 && !sort.SliceIsSorted(s.Modes, func(i, j int) bool { return s.Modes[i].Id < s.Modes[j].Id }) {
 		ms = append(ms, "UNSORTED")
 	}
 	n := "-"
